@@ -31,11 +31,13 @@ RULE = ("generated meshes (point clouds, polylines with isolated vertices, tri/q
         "classes x config switches x ignore_elements x attribute plans, each saved to all 7 formats, re-read by mouette and by the "
         "reference reader, and re-written by the reference writer in a random dialect; non-trivial = the mesh has >= 2 element kinds "
         "or >= 1 attribute; distinct = distinct (coordinates, elements, attribute plan, switches) hash")
-REQUIRED = {"roundtrip": 3000, "written": 2000, "foreign": 2000, "attributes": 300,
-            "roundtrip/obj": 200, "roundtrip/mesh": 200, "roundtrip/geogram_ascii": 200, "roundtrip/off": 200,
-            "roundtrip/tet": 200, "roundtrip/xyz": 100, "roundtrip/stl": 50,
-            "foreign/obj": 200, "foreign/mesh": 200, "foreign/geogram_ascii": 200, "foreign/off": 100, "foreign/tet": 100,
-            "foreign/xyz": 100, "foreign/stl": 50}
+REQUIRED = {"roundtrip": 5000, "written": 4000, "foreign": 4000, "attributes": 200,
+            "roundtrip/obj": 600, "roundtrip/mesh": 600, "roundtrip/geogram_ascii": 600, "roundtrip/off": 600,
+            "roundtrip/tet": 600, "roundtrip/xyz": 600, "roundtrip/stl": 200,
+            "written/obj": 500, "written/mesh": 500, "written/geogram_ascii": 500, "written/off": 500, "written/tet": 500,
+            "written/xyz": 500, "written/stl": 200,
+            "foreign/obj": 600, "foreign/mesh": 600, "foreign/geogram_ascii": 600, "foreign/off": 600, "foreign/tet": 600,
+            "foreign/xyz": 600, "foreign/stl": 200}
 CASE_TIMEOUT = {"quick": 120.0, "thorough": 300.0}
 ASSUMPTIONS = ["element kinds: edges, triangles/quads/polygons, tetrahedra and hexahedra (VTK vertex order); no invalid or repeated elements",
                "coordinates are finite doubles; for stl they are limited to the float32 range and compared as float32(coordinate)",
@@ -151,7 +153,7 @@ def _attr_plan(rng, kind, p_any=0.5):
 
 
 KINDS = ["pointcloud", "polyline", "surface:tri", "surface:poly", "surface:any", "volume:tets", "volume:hexes", "volume:mixed",
-         "surface:quad", "volume:tets"]
+         "surface:quad", "volume:tets", "surface:ngon"]
 
 
 def cases(seed, tier):
@@ -204,7 +206,8 @@ def materialise(desc):
     elif kind.startswith("surface"):
         sub = kind.split(":")[1]
         want = {"tri": dict(tri_only=True), "poly": dict(poly_only=True), "any": {},
-                "quad": dict(classes=["grid_quad", "torus_quad", "voxel", "cube", "anchor_quad", "annulus_quad"])}[sub]
+                "quad": dict(classes=["grid_quad", "torus_quad", "voxel", "cube", "anchor_quad", "annulus_quad"]),
+                "ngon": dict(classes=["dual", "dual", "uv_sphere"])}[sub]
         z = surfaces.make(desc["seed"], max_size=size, **want)
         V, F, label = [list(map(float, p)) for p in z["V"]], [list(f) for f in z["F"]], z["cls"].split("~")[0]
         base = "surface"
@@ -387,7 +390,8 @@ def project(snap, fmt, cfg, ignore, n_declared_edges, has_faces_at_build):
     if fmt in ("geogram_ascii", "tet"):
         exp["C"] = C
     if fmt == "stl":
-        exp["soup"] = _soup(snap["V"], [f for f in F if len(f) in (3, 4)])
+        exp["soup_from_quad"] = []
+        exp["soup"] = _soup(snap["V"], [f for f in F if len(f) in (3, 4)], flags=exp["soup_from_quad"])
         exp["V"] = None
     return exp
 
@@ -396,12 +400,16 @@ def _f32(x):
     return struct.unpack("<f", struct.pack("<f", float(x)))[0]
 
 
-def _soup(V, F, cast=True):
+def _soup(V, F, cast=True, flags=None):
+    """Triangle soup of triangles and quads (a quad is the two triangles (0,1,2), (2,3,0) of mouette's documented split).
+    flags (optional list) receives True for triangles that come from a quad: those are compared up to rotation."""
     out = []
     for f in F:
         tris = [f] if len(f) == 3 else [[f[0], f[1], f[2]], [f[2], f[3], f[0]]]
         for t in tris:
             out.append([tuple((_f32(c) if cast else float(c)) for c in V[v]) for v in t])
+            if flags is not None:
+                flags.append(len(f) == 4)
     return out
 
 
@@ -524,6 +532,10 @@ def compare_content(ctx, mon, fmt, got, exp):
         ctx.obs(mon, fmt + "/soup")
         soup = [[tuple(got["V"][v]) if 0 <= v < len(got["V"]) else None for v in f] for f in gotF]
         want = [list(t) for t in exp["soup"]]
+        fq = exp.get("soup_from_quad") or [False] * len(want)
+        if len(soup) == len(want):
+            # a triangle of a split quad may start at any of its three vertices (same oriented triangle)
+            soup = [want[i] if fq[i] and soup[i] in (want[i][1:] + want[i][:1], want[i][2:] + want[i][:2]) else soup[i] for i in range(len(want))]
         if soup != want:
             good = False
             if len(soup) != len(want):
@@ -716,12 +728,12 @@ def direction_save(ctx, desc, inp, fmt, tmp, cfg):
     made = _make_attrs(mesh, desc.get("attrs", []), rng) if fmt in ("geogram_ascii", "obj", "xyz") else []
     snap = _snap(mesh)
     ignore = set(desc.get("ignore", []))
-    exp = project(snap, fmt, cfg, ignore, len(E), bool(snap["F"]))
-    path = os.path.join(tmp, "m_%s.%s" % (fmt, fmt))
-    polygons = fmt == "stl" and any(len(f) >= 5 for f in snap["F"]) and "faces" not in ignore
     if fmt == "stl" and not zin.fits_float32(snap["V"]):
         ctx.note("stl_skipped_outside_float32_range")
         return
+    exp = project(snap, fmt, cfg, ignore, len(E), bool(snap["F"]))
+    path = os.path.join(tmp, "m_%s.%s" % (fmt, fmt))
+    polygons = fmt == "stl" and any(len(f) >= 5 for f in snap["F"]) and "faces" not in ignore
     ok, res = _call(ctx, "roundtrip", fmt + "/save", M.mesh.save, mesh, path, set(ignore) if ignore else None,
                     expect=(ValueError,) if polygons else ())
     if ok is None:
@@ -867,9 +879,10 @@ def direction_foreign(ctx, desc, inp, fmt, tmp, cfg):
            "F": data["F"], "C": data["C"], "perkind": fmt == "mesh", "soup": None}
     made = []
     if fmt == "stl":
-        tris = [f for f in F if len(f) == 3]
+        # any triangle soup will do: fan triangulation of the faces, else consecutive vertex triples
+        tris = [[f[0], f[k], f[k + 1]] for f in F for k in range(1, len(f) - 1)] or [[i, i + 1, i + 2] for i in range(0, len(Vf) - 2, 2)]
         if not tris or not zin.fits_float32(Vf):
-            ctx.note("foreign_stl_skipped_no_triangles_or_range")
+            ctx.note("foreign_stl_skipped_fewer_than_3_vertices_or_range")
             return
         V32 = [tuple(_f32(c) for c in p) for p in Vf]
         data = {"T": _soup(V32, tris, cast=False)}
@@ -887,7 +900,11 @@ def direction_foreign(ctx, desc, inp, fmt, tmp, cfg):
     # the reference reader must understand the reference writer (codec self-check; a failure here is a harness error)
     back = _ref_snapshot(fmt, codecs.BY_EXT[fmt].read(path))
     if fmt != "stl":
-        assert diff_vertices(data["V"], back["V"]) is None and back["F"] == data["F"] and back["C"] == data["C"], "reference codec %s" % fmt
+        srt = (lambda x: sorted(x, key=len)) if fmt == "mesh" else (lambda x: x)
+        assert diff_vertices(data["V"], back["V"]) is None and srt(back["F"]) == srt(data["F"]) and srt(back["C"]) == srt(data["C"]) \
+            and sorted(back["E"]) == sorted(tuple(sorted(e)) for e in data["E"]), "reference codec %s" % fmt
+    else:
+        assert back["F"] and len(back["F"]) == len(data["T"]), "reference codec stl"
     tag = ""
     if fmt == "geogram_ascii":
         tag = "_" + str(d["extras"]) + ("_nonsimplicial_cells" if any(len(c) != 4 for c in data["C"]) else "_tets" if data["C"] else "")
